@@ -107,7 +107,7 @@ DIM_REGISTRY = {}
 
 class DimContract:
     def __init__(self, name, params, returns, poly=(), locals=None, strong=None, consts=None, fields=None,
-                 assumed=False, notes="", props=(), gen=None, inline=None, axes=("T",)):
+                 assumed=False, notes="", props=(), gen=None, inline=None, axes=("T",), types=None):
         self.name = name            # 'approx.approximate_gamma_iqr'
         self.params = params        # {param: spec}
         self.returns = returns      # spec
@@ -122,6 +122,7 @@ class DimContract:
         self.gen = gen              # rt.gens generator name for the homogeneity replay
         self.inline = inline
         self.axes = tuple(axes)     # unit axes the homogeneity replay scales
+        self.types = types          # [(kind, ndim)] per parameter for the replay when there is no numba signature
         DIM_REGISTRY[name] = self
 
 
@@ -836,7 +837,7 @@ class Checker:
         if isinstance(e.func, ast.Attribute) and not isinstance(e.func.value, ast.Name) and \
                 self.dotted(e.func.value) not in ("np.random", "np.linalg") and \
                 not (self.dotted(e.func) or "").startswith(("np.", "numba.", "math.", "hypergeo.", "approx.",
-                                                             "tskit.", "logging.", "logger.")):
+                                                             "tskit.", "logging.", "logger.", "scipy.")):
             return self.method(e, e.func.value, e.func.attr, args, kw)
         if f in self.env and isinstance(self.env[f], Fn):
             return self.inline(self.env[f].node, args, e)
@@ -902,10 +903,10 @@ class Checker:
             v = self.num(self.expr(args[0]), e)
             self.require(self.vzero(v.d), "exp", e)
             return N(v.s, self.zero(), None, v.rank)
-        if f in self.DIMLESS_FN or f.startswith("hypergeo.") or short in self.c.consts.get("__dimless_fns__", ()):
+        if f in self.DIMLESS_FN or f.startswith(("hypergeo.", "scipy.stats.", "scipy.special.")) or short in self.c.consts.get("__dimless_fns__", ()):
             for a in list(args) + list(kw.values()):
                 self.dimless(self.expr(a), short, a)
-            if f.startswith("hypergeo."):
+            if f.startswith(("hypergeo.", "scipy.")):
                 self.assumed_callees.add(f)
             return N(self.zero(), self.zero(), None, None)
         if f in self.BOOL_FN:
